@@ -20,7 +20,7 @@ checks.update({
  "C04": dict(cat="model_checking", engine="clustermc", ref="6 C04",
    technique="explicit-state BFS over operation sequences on a simulated cluster of real members (path replay, canonical-state de-duplication); white-box comparison of backup and primary copies after every step",
    text="All sequences up to depth 4 (quick) / 5 (thorough) over every mutating operation and option form, clock ticks and eviction, through each entry point, R in {2,3}: after every acknowledged step each listed backup holds a copy identical to the primary (value, expiry, timestamp) or none when the primary has none. Small-table configurations add a fill event (the key's versions spread over storage tables). LRU part: Put sequences over four keys on replicated clusters with MaxKeys / MaxInuse small enough to evict, the same mirror oracle after every Put.",
-   note="white-box copies decoded via verif accessors; reference model only used for step expectations"),
+   note="white-box copies decoded via verif accessors; reference model only used for step expectations; also: two configurations with asynchronous replication (replication calls delivered after every step), non-initial start states, and a concurrent part (schedule exploration of a lock take-over after a lease, R=3, mirror oracle on the final state)"),
  "C07": dict(cat="model_checking", engine="schedmc", ref="6 C07",
    technique="stateless exploration of thread interleavings (iterative preemption bounding) on real members; histories checked against counter / exchange-chain specifications",
    text="Every schedule with at most 2 preemptions (completed for every program in both tiers; thorough continues with 3 within its time budget) of 2-3 concurrent Incr/Decr/IncrByFloat/GetPut callers over all entry-point multisets and cluster configurations; returned values must form a sequential counter history (or a single GetPut chain) and the final value must equal initial + sum of deltas from every member.",
@@ -114,7 +114,7 @@ m = {
  },
  "engines": [
    {"name": "kvmc", "path": "harness/kvmc", "serves_properties": ["C11", "C12", "C20"], "kind_free_text": "explicit-state BFS over the real storage engine"},
-   {"name": "schedmc", "path": "harness/schedmc", "serves_properties": ["C01", "C07", "C08", "C14"], "kind_free_text": "stateless schedule exploration (preemption bounded DFS) of real members under a cooperative scheduler"},
+   {"name": "schedmc", "path": "harness/schedmc", "serves_properties": ["C01", "C04", "C07", "C08", "C14"], "kind_free_text": "stateless schedule exploration (preemption bounded DFS) of real members under a cooperative scheduler"},
    {"name": "inputmc", "path": "harness/checks/c16.go", "serves_properties": ["C16", "C17"], "kind_free_text": "exhaustive enumeration of request argument vectors / byte frames / typed boundary values through the real handlers and clients, in crash-isolated workers with a watchdog"},
    {"name": "faultgrid", "path": "harness/checks", "serves_properties": ["C05", "C06", "C15", "C18"], "kind_free_text": "exhaustive enumeration of finite configuration / fault / layout grids, one fresh real cluster per case"},
    {"name": "faultmc", "path": "harness/checks/c02.go", "serves_properties": ["C02"], "kind_free_text": "deviation-bounded DFS over fault decision points (gaps and command deliveries) on a simulated cluster of real members, one fresh cluster per schedule"},
